@@ -411,11 +411,15 @@ def roundtrip_jobs(prop, tier, seed):
              gen_job('rt_tempish_p15', 'tempish', 15, depth=1, style=style, roundtrips=rts, MaxAnns=10, MaxRes=4, MaxData=6, MaxSets=4, MaxKeys=4),
              gen_job('rt_nested_p17', 'remove', 17, depth=1, style=style, roundtrips=rts, MaxAnns=12, MaxRes=2),
              gen_job('rt_meta_p10', 'complexmeta', 10, depth=1, style=style, roundtrips=rts, sample_mod=4 if quick else 1, MaxAnns=10, MaxRes=3, MaxData=8, MaxSets=2, MaxKeys=4),
-             gen_job('rt_nodata_p18', 'remove', 18, depth=1, style=style, roundtrips=rts, MaxAnns=10, MaxRes=2, MaxData=4, MaxKeys=5)]
+             gen_job('rt_nodata_p18', 'remove', 18, depth=1, style=style, roundtrips=rts, MaxAnns=10, MaxRes=2, MaxData=4, MaxKeys=5),
+             # complex selectors whose members become consecutive on reload after the annotation between them was removed
+             gen_job('rt_gap_p23', 'remove', 23, depth=1 if quick else 2, style=style, roundtrips=rts, MaxAnns=10, MaxRes=2, MaxData=4)]
     if prop != 'C15':
         # values that only differ in type ("1" / 1 / 1.0 / true / "yes") and IRI-like strings
         jobs += [gen_job('rt_values_w', 'core', 1, depth=1 if quick else 2, size='w', style=style, roundtrips=rts, sample_mod=1 if quick else 8, MaxAnns=10, MaxRes=3, MaxData=10, MaxSets=2, MaxKeys=4),
-                 gen_job('rt_values_i', 'core', 2, depth=1, size='i', style=style, roundtrips=rts, MaxAnns=10, MaxRes=3, MaxData=10, MaxSets=2, MaxKeys=4)]
+                 gen_job('rt_values_i', 'core', 2, depth=1, size='i', style=style, roundtrips=rts, MaxAnns=10, MaxRes=3, MaxData=10, MaxSets=2, MaxKeys=4),
+                 # one value of every type: a datetime with a UTC offset, a float, null, a list of mixed values
+                 gen_job('rt_values_v', 'core', 2, depth=1 if quick else 2, size='v', style=style, roundtrips=rts, sample_mod=1 if quick else 4, MaxAnns=10, MaxRes=3, MaxData=10, MaxSets=2, MaxKeys=4)]
     jobs += [gen_job('rt_sim_all', 'all', 1, simulate=12 if quick else 150, simdepth=6 if quick else 10, size='m', style=style, roundtrips=rts,
                      MaxAnns=6, MaxData=4, MaxRes=2)]
     return jobs
